@@ -43,6 +43,7 @@ import (
 	"github.com/versity/versitygw/s3api/utils"
 	"github.com/versity/versitygw/s3err"
 	"github.com/versity/versitygw/s3response"
+	"github.com/versity/versitygw/verifhook"
 )
 
 type Posix struct {
@@ -410,6 +411,7 @@ func (p *Posix) CreateBucket(ctx context.Context, input *s3.CreateBucketInput, a
 		}
 		return fmt.Errorf("mkdir bucket: %w", err)
 	}
+	verifhook.At("mkbucket.mkdir-done", bucket)
 
 	if doChown {
 		err := os.Chown(bucket, uid, gid)
@@ -494,16 +496,19 @@ func (p *Posix) DeleteBucket(_ context.Context, bucket string) error {
 	}
 
 	// Check if the bucket is empty
+	verifhook.At("delbucket.entry", bucket)
 	err := p.isBucketEmpty(bucket)
 	if err != nil {
 		return err
 	}
+	verifhook.At("delbucket.empty-checked", bucket)
 
 	// Remove the bucket
 	err = os.RemoveAll(bucket)
 	if err != nil {
 		return fmt.Errorf("remove bucket: %w", err)
 	}
+	verifhook.At("delbucket.removed", bucket)
 	// Remove the bucket from versioning directory
 	if p.versioningEnabled() {
 		err = os.RemoveAll(filepath.Join(p.versioningDir, bucket))
@@ -705,6 +710,7 @@ func (p *Posix) deleteNullVersionIdObject(bucket, key string) error {
 
 // Creates a new copy(version) of an object in the versioning directory
 func (p *Posix) createObjVersion(bucket, key string, size int64, acc auth.Account) (versionPath string, err error) {
+	verifhook.At("version.entry", bucket, key)
 	sf, err := os.Open(filepath.Join(bucket, key))
 	if err != nil {
 		return "", err
@@ -765,6 +771,7 @@ func (p *Posix) createObjVersion(bucket, key string, size int64, acc auth.Accoun
 	if err := f.link(); err != nil {
 		return versionPath, err
 	}
+	verifhook.At("version.linked", bucket, key)
 
 	return versionPath, nil
 }
@@ -1447,6 +1454,7 @@ func (p *Posix) CompleteMultipartUpload(ctx context.Context, input *s3.CompleteM
 	object := *input.Key
 	uploadID := *input.UploadId
 	parts := input.MultipartUpload.Parts
+	verifhook.At("complete.entry", bucket, object)
 
 	_, err := os.Stat(bucket)
 	if errors.Is(err, fs.ErrNotExist) {
@@ -1788,12 +1796,15 @@ func (p *Posix) CompleteMultipartUpload(ctx context.Context, input *s3.CompleteM
 	if err != nil {
 		return nil, fmt.Errorf("link object in namespace: %w", err)
 	}
+	verifhook.At("complete.linked", bucket, object)
 
 	// cleanup tmp dirs
 	os.RemoveAll(filepath.Join(bucket, objdir, uploadID))
+	verifhook.At("complete.parts-removed", bucket, object)
 	// use Remove for objdir in case there are still other uploads
 	// for same object name outstanding, this will fail if there are
 	os.Remove(filepath.Join(bucket, objdir))
+	verifhook.At("complete.cleaned", bucket, object)
 
 	return &s3.CompleteMultipartUploadOutput{
 		Bucket:            &bucket,
@@ -2544,6 +2555,7 @@ func (p *Posix) UploadPart(ctx context.Context, input *s3.UploadPartInput) (*s3.
 	if err != nil {
 		return nil, fmt.Errorf("link object in namespace: %w", err)
 	}
+	verifhook.At("part.linked", bucket, object)
 
 	return res, nil
 }
@@ -2793,6 +2805,7 @@ func (p *Posix) PutObject(ctx context.Context, po s3response.PutObjectInput) (s3
 	}
 
 	name := filepath.Join(*po.Bucket, *po.Key)
+	verifhook.At("put.entry", *po.Bucket, *po.Key)
 
 	uid, gid, doChown := p.getChownIDs(acct)
 
@@ -2940,6 +2953,7 @@ func (p *Posix) PutObject(ctx context.Context, po s3response.PutObjectInput) (s3
 	if contentLength > 0 && copied != contentLength {
 		return s3response.PutObjectOutput{}, s3err.GetAPIError(s3err.ErrIncompleteBody)
 	}
+	verifhook.At("put.body-done", *po.Bucket, *po.Key)
 
 	dir := filepath.Dir(name)
 	if dir != "" {
@@ -3048,6 +3062,7 @@ func (p *Posix) PutObject(ctx context.Context, po s3response.PutObjectInput) (s3
 	if err != nil {
 		return s3response.PutObjectOutput{}, s3err.GetAPIError(s3err.ErrExistingObjectIsDirectory)
 	}
+	verifhook.At("put.linked", *po.Bucket, *po.Key)
 
 	// Set object tagging
 	if tags != nil {
@@ -3120,6 +3135,7 @@ func (p *Posix) DeleteObject(ctx context.Context, input *s3.DeleteObjectInput) (
 	}
 
 	objpath := filepath.Join(bucket, object)
+	verifhook.At("delete.entry", bucket, object)
 
 	vStatus, err := p.getBucketVersioningStatus(ctx, bucket)
 	if err != nil {
@@ -3214,10 +3230,12 @@ func (p *Posix) DeleteObject(ctx context.Context, input *s3.DeleteObjectInput) (
 				if err != nil {
 					return nil, err
 				}
+				verifhook.At("delete.remove-current", bucket, object)
 				err = os.Remove(objpath)
 				if err != nil {
 					return nil, fmt.Errorf("remove obj version: %w", err)
 				}
+				verifhook.At("delete.removed-current", bucket, object)
 				// the promoted version brings its own attributes
 				err = p.clearStaleAttributes(bucket, object)
 				if err != nil {
@@ -3313,10 +3331,12 @@ func (p *Posix) DeleteObject(ctx context.Context, input *s3.DeleteObjectInput) (
 					}
 				}
 
+				verifhook.At("delete.remove-promoted", bucket, object)
 				err = os.Remove(filepath.Join(versionPath, srcVersionId))
 				if err != nil {
 					return nil, fmt.Errorf("remove obj version %w", err)
 				}
+				verifhook.At("delete.removed-promoted", bucket, object)
 
 				p.removeParents(filepath.Join(p.versioningDir, bucket), filepath.Join(genObjVersionKey(object), *input.VersionId))
 
@@ -3328,7 +3348,9 @@ func (p *Posix) DeleteObject(ctx context.Context, input *s3.DeleteObjectInput) (
 
 			isDelMarker, _ := p.isObjDeleteMarker(versionPath, *input.VersionId)
 
+			verifhook.At("delete.remove-version", bucket, object)
 			err = os.Remove(filepath.Join(versionPath, *input.VersionId))
+			verifhook.At("delete.removed-version", bucket, object)
 			if errors.Is(err, syscall.ENAMETOOLONG) {
 				return nil, s3err.GetAPIError(s3err.ErrKeyTooLong)
 			}
@@ -3373,7 +3395,9 @@ func (p *Posix) DeleteObject(ctx context.Context, input *s3.DeleteObjectInput) (
 		return &s3.DeleteObjectOutput{}, nil
 	}
 
+	verifhook.At("delete.remove", bucket, object)
 	err = os.Remove(objpath)
+	verifhook.At("delete.removed", bucket, object)
 	if errors.Is(err, fs.ErrNotExist) {
 		return nil, s3err.GetAPIError(s3err.ErrNoSuchKey)
 	}
@@ -3403,6 +3427,7 @@ func (p *Posix) DeleteObject(ctx context.Context, input *s3.DeleteObjectInput) (
 	if err != nil {
 		return nil, fmt.Errorf("delete object attributes: %w", err)
 	}
+	verifhook.At("delete.parents", bucket, object)
 
 	p.removeParents(bucket, object)
 
@@ -3537,8 +3562,10 @@ func (p *Posix) GetObject(_ context.Context, input *s3.GetObjectInput) (*s3.GetO
 	}
 
 	objPath := filepath.Join(bucket, object)
+	verifhook.At("read.stat", bucket, object)
 
 	fi, err := os.Stat(objPath)
+	verifhook.At("read.stat-done", bucket, object)
 	if errors.Is(err, fs.ErrNotExist) || errors.Is(err, syscall.ENOTDIR) {
 		if versionId != "" {
 			return nil, s3err.GetAPIError(s3err.ErrInvalidVersionId)
@@ -3668,7 +3695,9 @@ func (p *Posix) GetObject(_ context.Context, input *s3.GetObjectInput) (*s3.GetO
 		tagCount = &tgCount
 	}
 
+	verifhook.At("read.open", bucket, object)
 	f, err := os.Open(objPath)
+	verifhook.At("read.opened", bucket, object)
 	if errors.Is(err, fs.ErrNotExist) {
 		return nil, s3err.GetAPIError(s3err.ErrNoSuchKey)
 	}
@@ -3811,8 +3840,10 @@ func (p *Posix) HeadObject(ctx context.Context, input *s3.HeadObjectInput) (*s3.
 	}
 
 	objPath := filepath.Join(bucket, object)
+	verifhook.At("read.stat", bucket, object)
 
 	fi, err := os.Stat(objPath)
+	verifhook.At("read.stat-done", bucket, object)
 	if errors.Is(err, fs.ErrNotExist) || errors.Is(err, syscall.ENOTDIR) {
 		if versionId != "" {
 			return nil, s3err.GetAPIError(s3err.ErrInvalidVersionId)
